@@ -1968,12 +1968,16 @@ def split_pad_to_sub_pad(op, arch, nng):
     pad_tensor2 = create_const_tensor(
             f"{pad_tensor.name}_sub", pad_shape, pad_dtype, pad_value, quantization=quantization)
 
-    kept = pad_tensor.values[axis].copy()
-    pad_tensor.values[:] = 0
-    pad_tensor.values[axis] = kept
+    # The paddings constant may be read by other operators too (equal constants are one tensor in a converted model):
+    # both halves get constants of their own, the original is left as it is
+    kept_value = np.zeros_like(pad_tensor.values)
+    kept_value[axis] = pad_tensor.values[axis]
+    pad_tensor1 = create_const_tensor(
+            f"{pad_tensor.name}_kept", pad_shape, pad_dtype, kept_value, quantization=quantization)
     pad_tensor2.values[axis] = [0, 0]
 
     op.set_input_tensor(pad_sub_out, 0)
+    op.set_input_tensor(pad_tensor1, 1)
     pad_sub.set_output_tensor(pad_sub_out)
     pad_sub.set_input_tensor(pad_tensor2, 1)
 
